@@ -41,8 +41,11 @@ if __name__ == '__main__':
     chk = Check('C02')
     try:
         run(chk)
-    except Inconclusive as e:
+    except Exception as e:          # nothing the engine cannot digest may look like a verdict: exit 2
+        import traceback
         o = chk.ob('engine', 'executor could not interpret the code')
         o.status = 'inconclusive'
-        o.detail = str(e)
+        o.detail = ('%s: %s' % (type(e).__name__, e)) if not isinstance(e, Inconclusive) else str(e)
+        if not isinstance(e, Inconclusive):
+            o.detail += ' | ' + ' <- '.join(l.strip() for l in traceback.format_exc().strip().split('\n')[-7:-1:2])
     sys.exit(chk.finish())
